@@ -269,6 +269,11 @@ def instStepN (st : St) (two : Bool) (args : List String) : St × String :=
     | some n =>
       if (AMap.get st.known w).isNone then (st, "bad-op") else
       ((List.range n).foldl (fun st _ => (instStep st two ["impstep", w]).1) st, "ok")
+  | ["importq", w, how, ns] =>
+    -- `import`, answering only whether it succeeded (neither the status nor the address list): a wrong address
+    -- set then shows at the observations that have a specification (use, bal, utxos, twin)
+    let (st', o) := instStep st two ["import", w, how, ns]
+    (st', if o.startsWith "ok " then "ok" else o)
   | _ => instStep st two args
 
 def nodeOps : List String := ["tx", "block", "submit", "detach", "params", "fill", "twin"]
